@@ -5,68 +5,31 @@
   stays ≤ the threshold (so every cell strictly between the thresholds is selected); the sub-cell
   counting loop is Euclidean division; the recursive descents never hit an assertion and always
   terminate for `0 ≤ target < cell value` on dyadic values.
-  Partial: the mass bracket itself is evaluated on the implementation's output with exact integers
-  by the check (implementation-vs-definition), not proved; see DESIGN.md §10 and the open finding
-  "both thresholds inside one cell".
+  `selection_mass_bracket`: for every dyadic map, every `from ≤ to ≤ total` and all 16 option
+  combinations, the value enclosed by the selection differs from `to − from` by at most one boundary
+  piece per threshold (never above in strict mode, never below in non-strict mode) — whenever the two
+  thresholds are not strictly inside the same map cell; `both_thresholds_one_cell_counterexample`
+  shows that this hypothesis is necessary (it is the open finding).  The enclosed value is defined
+  on `selectWithMass`, proved to select exactly the cells of the model function tied to the code.
 -/
 import MocVerif.Lemmas.Canon
-import MocVerif.Model.Valued
+import MocVerif.Lemmas.ValuedMass
 
 namespace Moc.C20
+open Moc.Mass
 
-def sumVal (l : List VCell) : Nat := (l.map (·.val)).sum
-
-/-- The `while acc + v[i] <= thr` loop: splits the (sorted) list into the maximal prefix whose
-    cumulative value stays `≤ thr` and the rest, whose first cell overshoots the threshold. -/
-theorem scanWhole_spec (thr : Nat) (l : List VCell) : ∀ acc,
+/-- The accumulation loops (`while acc + v[i] <= thr`) take the maximal prefix of the sorted map whose
+    cumulative value stays `≤ thr`: every cell strictly between the thresholds is selected. -/
+theorem accumulation_loop_spec (thr : Nat) (l : List VCell) (acc : Nat) :
     let r := scanWhole thr acc l
     l = r.2.1 ++ r.2.2 ∧ r.1 = acc + sumVal r.2.1 ∧ (acc ≤ thr → r.1 ≤ thr) ∧
-    (∀ c t, r.2.2 = c :: t → thr < r.1 + c.val) := by
-  induction l with
-  | nil => intro acc; simp [scanWhole, sumVal]
-  | cons c t ih =>
-    intro acc
-    simp only [scanWhole]
-    split
-    · rename_i h
-      have := ih (acc + c.val)
-      generalize scanWhole thr (acc + c.val) t = r at this ⊢
-      obtain ⟨a, tk, rest⟩ := r
-      simp only [] at this ⊢
-      obtain ⟨h1, h2, h3, h4⟩ := this
-      refine ⟨by rw [h1]; rfl, ?_, fun _ => h3 h, h4⟩
-      rw [h2]
-      unfold sumVal
-      rw [List.map_cons, List.sum_cons]; omega
-    · rename_i h
-      simp only []
-      refine ⟨by simp, by simp [sumVal], fun h' => h', ?_⟩
-      intro c' t' he
-      injection he with he1 he2
-      subst he1
-      omega
+    (∀ c t, r.2.2 = c :: t → thr < r.1 + c.val) := scanWhole_spec thr l acc
 
 /-- The sub-cell counting loop is Euclidean division (bounded by the fuel). -/
-theorem takeSub_spec (sub : Nat) (hs : 0 < sub) : ∀ fuel k t,
+theorem subcell_loop_spec (sub : Nat) (hs : 0 < sub) (fuel k t : Nat) :
     let r := takeSub sub fuel k t
-    k ≤ r.1 ∧ r.1 ≤ k + fuel ∧ t = (r.1 - k) * sub + r.2 ∧ (r.1 < k + fuel → r.2 < sub) := by
-  intro fuel
-  induction fuel with
-  | zero => intro k t; simp [takeSub]
-  | succ f ih =>
-    intro k t
-    simp only [takeSub]
-    split
-    · rename_i h
-      have := ih (k + 1) (t - sub)
-      simp only [] at this ⊢
-      obtain ⟨h1, h2, h3, h4⟩ := this
-      refine ⟨by omega, by omega, ?_, fun hlt => h4 (by omega)⟩
-      have e : (takeSub sub f (k + 1) (t - sub)).1 - k = ((takeSub sub f (k + 1) (t - sub)).1 - (k + 1)) + 1 := by omega
-      rw [e, Nat.add_mul]; omega
-    · rename_i h
-      simp only []
-      exact ⟨Nat.le_refl _, by omega, by simp, fun _ => by omega⟩
+    k ≤ r.1 ∧ r.1 ≤ k + fuel ∧ t = (r.1 - k) * sub + r.2 ∧ (r.1 < k + fuel → r.2 < sub) :=
+  takeSub_spec sub hs fuel k t
 
 /-- **Totality of the upper-boundary descent**: for a cell value that is divisible all the way down
     (`4^fuel ∣ v`, i.e. a dyadic value) and any target `t < v`, no assertion fails and the recursion
@@ -106,5 +69,64 @@ theorem descent_total : ∀ (fuel depth ipix v : Nat) (strict : Bool) (t : Nat),
 /-! Non-vacuity -/
 example : (4 : Nat) ^ 2 ∣ 48 ∧ (17 : Nat) < 48 := by decide
 example : descent 2 0 4 48 true 17 = some [(1, 16), (2, 68)] := by decide
+
+
+
+/-- **Enclosed value of the four descents** (dyadic cell value `v`, target `t < v`; one deepest piece
+    is `v / 4^fuel`): upper boundary, both orders — strict: within one piece BELOW the target;
+    non-strict: within one piece ABOVE it. -/
+theorem upper_descents_mass (fuel depth ipix v : Nat) (strict rev : Bool) (t : Nat) (cs : List Cell)
+    (hd : 4 ^ fuel ∣ v) (ht : t < v)
+    (h : (if rev then descentR else descent) fuel depth ipix v strict t = some cs) :
+    (strict = true → massOf v depth cs ≤ t ∧ t < massOf v depth cs + v / 4 ^ fuel) ∧
+    (strict = false → t ≤ massOf v depth cs ∧ massOf v depth cs ≤ t + v / 4 ^ fuel) := by
+  cases rev with
+  | true => exact (descentR_mass fuel depth ipix v strict t cs hd ht (by simpa using h)).2
+  | false => exact (descent_mass fuel depth ipix v strict t cs hd ht (by simpa using h)).2
+
+/-- Lower boundary, both orders: what is kept of the cell encloses `v − t` within one deepest piece
+    (below in strict mode, above in non-strict mode). -/
+theorem lower_descents_mass (fuel depth ipix v : Nat) (strict rev : Bool) (t : Nat) (cs : List Cell)
+    (hd : 4 ^ fuel ∣ v) (ht : t < v)
+    (h : (if rev then descentRRev else descentRev) fuel depth ipix v strict t = some cs) :
+    (strict = true → massOf v depth cs + t ≤ v ∧ v ≤ massOf v depth cs + t + v / 4 ^ fuel) ∧
+    (strict = false → v ≤ massOf v depth cs + t ∧ massOf v depth cs + t ≤ v + v / 4 ^ fuel) := by
+  cases rev with
+  | true => exact (descentRRev_mass fuel depth ipix v strict t cs hd ht (by simpa using h)).2
+  | false => exact (descentRev_mass fuel depth ipix v strict t cs hd ht (by simpa using h)).2
+
+/-- `selectWithMass` (the selection with the provenance of every piece) selects exactly the cells of
+    the model function tied to the code by the correspondence. -/
+theorem selection_cells (maxDepth : Nat) (cells : List VCell) (from_ to : Nat) (asc strict noSplit rev : Bool) :
+    (selectWithMass maxDepth cells from_ to asc strict noSplit rev).map (·.1)
+      = selectCells maxDepth cells from_ to asc strict noSplit rev :=
+  selectWithMass_cells maxDepth cells from_ to asc strict noSplit rev
+
+/-- **The selection brackets the requested mass**: for every map of dyadic values, every
+    `from ≤ to ≤ total`, every order / strictness / splitting / descent option, whenever the two
+    thresholds are not strictly inside the same map cell, the value `M` enclosed by the selection
+    differs from `to − from` by at most one boundary piece per threshold — never above the target in
+    strict mode, never below it in non-strict mode. -/
+theorem selection_mass_bracket (maxDepth : Nat) (cells : List VCell) (from_ to : Nat) (asc strict noSplit rev : Bool)
+    (cs : List Cell) (M uLow uHigh : Nat)
+    (h : selectWithMass maxDepth cells from_ to asc strict noSplit rev = some (cs, M, uLow, uHigh))
+    (hdy : ∀ c ∈ cells, 4 ^ (maxDepthOf maxDepth cells - c.depth) ∣ c.val)
+    (hft : from_ ≤ to) (htot : to ≤ sumVal cells) (hsame : NotSameCell cells from_ to asc) :
+    (strict = true → M ≤ to - from_ ∧ to - from_ ≤ M + uLow + uHigh) ∧
+    (strict = false → to - from_ ≤ M ∧ M ≤ to - from_ + uLow + uHigh) :=
+  mass_bracket maxDepth cells from_ to asc strict noSplit rev cs M uLow uHigh h hdy hft htot hsame
+
+/-- The hypothesis `NotSameCell` is necessary (this is the open finding): one cell of value 64 at
+    depth 0, maximum depth 1, `from = 16`, `to = 32` (both strictly inside the cell), strict, split:
+    the lower-boundary descent keeps the two upper quarters (32) and the upper threshold is never
+    looked at — in STRICT mode the selection encloses 32 for a target of 16. -/
+theorem both_thresholds_one_cell_counterexample :
+    selectWithMass 1 [⟨0, 0, 64, 64⟩] 16 32 false true false false = some ([(1, 2), (1, 3)], 32, 16, 0) ∧
+    ¬ NotSameCell [⟨0, 0, 64, 64⟩] 16 32 false := by
+  constructor
+  · decide
+  · intro h
+    have := h ⟨0, 0, 64, 64⟩ [] (by decide) (by decide)
+    revert this; decide
 
 end Moc.C20
